@@ -1,8 +1,10 @@
 SPECIFICATION Spec
 CONSTANTS
     M = 65536
-    W = 1024
-    Band = 8
+    W = 32767
+    DocW = 1024
+    AllPairs = FALSE
+    Band = 16
     Chunks = 256
     ASel = "dense"
     CoreDLt = FALSE
@@ -11,6 +13,7 @@ INVARIANTS
     OffsetAgreesCore
     AllLemmas
     AddSubWrap
+    WindowOrder
     NegativeWitness
     EmitAll
 CHECK_DEADLOCK FALSE
